@@ -260,6 +260,19 @@ func (c *sectorCtx) rangeCase(start, end uint64, ri int) {
 	if ln := end - start; end+ln <= N && !heavy {
 		tamper(b, name, "range-shifted-by-its-length", wit, "the range is claimed one range-length further right", func() bool { return sv(proof, data, start+ln, end+ln, c.root) })
 	}
+	if !heavy {
+		ln := end - start
+		for k := 0; k < 3; k++ {
+			s := b.Rng.Uint64N(N - ln + 1)
+			if k == 0 && start >= ln {
+				s = start - ln // the sibling-side neighbour
+			}
+			if s == start {
+				continue
+			}
+			tamper(b, name, "range-moved", wit, fmt.Sprintf("the data is claimed at [%d,%d)", s, s+ln), func() bool { return sv(proof, data, s, s+ln, c.root) })
+		}
+	}
 	if end-start >= 2 && !heavy {
 		tamper(b, name, "start-altered", wit, "start is one higher (all but the last leaf claimed at [start+1,end))", func() bool { return sv(proof, data[:len(data)-64], start+1, end, c.root) })
 		tamper(b, name, "end-altered", wit, "end is one lower (all but the first leaf claimed at [start,end-1))", func() bool { return sv(proof, data[64:], start, end-1, c.root) })
